@@ -262,6 +262,11 @@ class KeyMaterial:
         okp = OKPKey.generate_key("Ed25519")
         self.okp_priv = okp.as_pem(private=True)
         self.oct_jwk = [OctKey.import_key(b).as_dict() for b in self.oct]
+        self.oct16 = [bytes(rng.randrange(256) for _ in range(16)) for _ in range(2)]
+        okp2 = OKPKey.generate_key("Ed25519")
+        self.okp2_priv = okp2.as_pem(private=True)
+        rsa2 = RSAKey.generate_key(2048)
+        self.rsa2_priv = rsa2.as_pem(private=True)
 
 
 def key_specs(mat):
@@ -284,6 +289,10 @@ def key_specs(mat):
     S["rsa"] = (lambda: RSAKey.import_key(mat.rsa_priv), False)
     S["rsapub"] = (lambda: RSAKey.import_key(mat.rsa_pub), False)
     S["okp"] = (lambda: OKPKey.import_key(mat.okp_priv), False)
+    S["okp2"] = (lambda: OKPKey.import_key(mat.okp2_priv), False)
+    S["rsa2"] = (lambda: RSAKey.import_key(mat.rsa2_priv), False)
+    for i, b in enumerate(mat.oct16):
+        S["oct16_%d" % i] = (lambda b=b: OctKey.import_key(b), False)
     return S
 
 
@@ -638,11 +647,11 @@ def jwe_pairs(O, mat):
 
 # --------------------------------------------------------------------------------------
 class Runner:
-    def __init__(self, ctx):
+    def __init__(self, ctx, mat=None):
         self.ctx = ctx
         self.stops = Stops()
         self.sched = Sched(self.stops)
-        self.mat = KeyMaterial(ctx.rng)
+        self.mat = mat or KeyMaterial(ctx.rng)
         self.specs = key_specs(self.mat)
         self.worlds = build_worlds(self.specs)
         self.tokens = make_tokens(self.worlds)
@@ -1031,9 +1040,534 @@ def stress(runner, ctx):
     return bad
 
 
+
+# ======================================================================================
+# registry / algorithm-singleton part: calls described by JSON specs, executed in this
+# process (after whatever history / under the scheduler) AND in a process forked from the
+# pristine state (nothing but key generation has run there): order dependence and state
+# left behind in class-level caches or singletons shows up as a verdict difference
+# ======================================================================================
+ALG_FILES_CORE = ("rfc7518/jwe_encs.py", "rfc7518/jwe_algs.py", "rfc7518/jws_algs.py", "rfc8037/jws_eddsa.py",
+                  "drafts/jwe_chacha20.py", "drafts/jwe_ecdh_1pu.py", "rfc8812/__init__.py")
+ALG_FILES_MORE = ("rfc7516/models.py", "rfc7516/message.py", "rfc7516/registry.py", "rfc7516/compact.py",
+                  "rfc7515/model.py", "rfc7515/compact.py", "rfc7515/registry.py", "rfc7515/json.py",
+                  "rfc7797/compact.py", "rfc7797/registry.py")
+
+
+def make_registry(kind, r):
+    if r is None:
+        return None
+    from joserfc.registry import HeaderParameter
+    hr = {n: HeaderParameter("caller-registered header " + n, "str") for n in r.get("headers", [])} or None
+    if kind == "jwe":
+        from joserfc.jwe import JWERegistry
+        return JWERegistry(header_registry=hr, algorithms=r.get("algorithms"),
+                           verify_all_recipients=r.get("verify_all", True), strict_check_header=r.get("strict", True))
+    if kind == "jws7797":
+        from joserfc.rfc7797.registry import JWSRegistry as R7797
+        return R7797(header_registry=hr, algorithms=r.get("algorithms"), strict_check_header=r.get("strict", True))
+    from joserfc.jws import JWSRegistry
+    return JWSRegistry(header_registry=hr, algorithms=r.get("algorithms"), strict_check_header=r.get("strict", True))
+
+
+def verdict(f):
+    try:
+        return ["ok", f()]
+    except BaseException as e:   # noqa
+        return ["err", exn_class(e)]
+
+
+def exec_spec(spec, specs):
+    """run one call on FRESH key objects; -> {"v": verdict, "token": produced token or None}"""
+    from joserfc import jws, jwe
+    from joserfc.rfc7797 import compact as c7797
+    op = spec["op"]
+    if op == "batch":
+        return {"v": ["ok", "batch"], "token": None, "results": [exec_spec(x, specs)["v"] for x in spec["specs"]]}
+    key = specs[spec["key"]][0]()
+    out = {"v": None, "token": None}
+    if op == "jwe_enc":
+        hdr = dict({"alg": spec["alg"], "enc": spec["enc"]}, **spec.get("extra", {}))
+        reg = make_registry("jwe", spec.get("reg"))
+        r = verdict(lambda: jwe.encrypt_compact(hdr, spec["pt"].encode(), key, registry=reg))
+        if r[0] == "ok":
+            out["token"] = r[1]
+            r = ["ok", "token"]
+        out["v"] = r
+    elif op == "jwe_dec":
+        reg = make_registry("jwe", spec.get("reg"))
+        out["v"] = verdict(lambda: jwe.decrypt_compact(spec["token"], key, registry=reg).plaintext.decode("latin1"))
+    elif op == "jwe_enc_json":
+        from joserfc.jwe import GeneralJSONEncryption
+        reg = make_registry("jwe", spec.get("reg"))
+        key2 = specs[spec["key2"]][0]()
+
+        def f():
+            obj = GeneralJSONEncryption(dict({"enc": spec["enc"]}, **spec.get("extra", {})), spec["pt"].encode())
+            obj.add_recipient({"alg": spec["alg"]}, key)
+            obj.add_recipient({"alg": spec["alg2"]}, key2)
+            return jwe.encrypt_json(obj, None, registry=reg)
+        r = verdict(f)
+        if r[0] == "ok":
+            out["token"] = r[1]
+            r = ["ok", "token"]
+        out["v"] = r
+    elif op == "jwe_dec_json":
+        reg = make_registry("jwe", spec.get("reg"))
+        out["v"] = verdict(lambda: jwe.decrypt_json(spec["token"], key, registry=reg).plaintext.decode("latin1"))
+    elif op == "jws_sign":
+        hdr = dict({"alg": spec["alg"]}, **spec.get("extra", {}))
+        if spec.get("b64") is not None:
+            hdr.update({"b64": spec["b64"], "crit": ["b64"]})
+            reg = make_registry("jws7797", spec.get("reg"))
+            r = verdict(lambda: c7797.serialize_compact(hdr, spec["pt"].encode(), key, registry=reg))
+        else:
+            reg = make_registry("jws", spec.get("reg"))
+            r = verdict(lambda: jws.serialize_compact(hdr, spec["pt"].encode(), key, registry=reg))
+        if r[0] == "ok":
+            out["token"] = r[1]
+            r = ["ok", "token"]
+        out["v"] = r
+    elif op == "jws_verify":
+        if spec.get("b64") is not None:
+            reg = make_registry("jws7797", spec.get("reg"))
+            out["v"] = verdict(lambda: c7797.deserialize_compact(spec["token"], key, registry=reg).payload.decode("latin1"))
+        else:
+            reg = make_registry("jws", spec.get("reg"))
+            out["v"] = verdict(lambda: jws.deserialize_compact(spec["token"], key, registry=reg).payload.decode("latin1"))
+    else:
+        raise RuntimeError("unknown spec op %r" % op)
+    return out
+
+
+def open_spec(spec, token):
+    """the spec that must accept a token produced by `spec` (permissive registry: same header names, the algs allowed)"""
+    reg = {"headers": ["custom", "other"], "strict": False, "algorithms": [a for a in (spec.get("alg"), spec.get("alg2"), spec.get("enc")) if a]}
+    peer = {"rsapub": "rsa", "ec0pub": "ec0", "ec1pub": "ec1"}.get(spec["key"], spec["key"])
+    if spec["op"] == "jwe_enc":
+        return {"op": "jwe_dec", "key": peer, "token": token, "reg": reg}
+    if spec["op"] == "jwe_enc_json":
+        return {"op": "jwe_dec_json", "key": peer, "token": token, "reg": dict(reg, verify_all=False)}
+    return {"op": "jws_verify", "key": peer, "token": token, "reg": reg, "b64": spec.get("b64")}
+
+
+class Pristine:
+    """a process forked before any joserfc call other than key generation; every request is served by a
+    further fork of it, so each call sees first-in-process state"""
+
+    def __init__(self, handler):
+        r1, w1 = os.pipe()
+        r2, w2 = os.pipe()
+        sys.stdout.flush()
+        pid = os.fork()
+        if pid == 0:
+            try:
+                os.close(w1)
+                os.close(r2)
+                fin, fout = os.fdopen(r1, "rb"), os.fdopen(w2, "wb")
+                while True:
+                    line = fin.readline()
+                    if not line:
+                        break
+                    rr, ww = os.pipe()
+                    c = os.fork()
+                    if c == 0:
+                        try:
+                            os.close(rr)
+                            try:
+                                out = handler(json.loads(line))
+                            except BaseException as e:   # noqa
+                                out = {"harness_error": repr(e)}
+                            data = json.dumps(out).encode()
+                            while data:
+                                n = os.write(ww, data)
+                                data = data[n:]
+                        finally:
+                            os._exit(0)
+                    os.close(ww)
+                    data = b""
+                    while True:
+                        chunk = os.read(rr, 65536)
+                        if not chunk:
+                            break
+                        data += chunk
+                    os.close(rr)
+                    os.waitpid(c, 0)
+                    fout.write(data + b"\n")
+                    fout.flush()
+            finally:
+                os._exit(0)
+        os.close(r1)
+        os.close(w2)
+        self.pid, self.fout, self.fin = pid, os.fdopen(w1, "wb"), os.fdopen(r2, "rb")
+        self.cache = {}
+
+    def call(self, spec):
+        k = json.dumps(spec, sort_keys=True)
+        if k not in self.cache or spec["op"] in ("jwe_enc", "jwe_enc_json", "jws_sign", "batch"):
+            self.fout.write(k.encode() + b"\n")
+            self.fout.flush()
+            out = json.loads(self.fin.readline())
+            if "harness_error" in out:
+                raise RuntimeError("pristine process: " + out["harness_error"])
+            self.cache[k] = out
+        return self.cache[k]
+
+    def close(self):
+        try:
+            self.fout.close()
+            os.waitpid(self.pid, 0)
+        except Exception:   # noqa
+            pass
+
+
+def deep_fingerprint(v, depth=0):
+    """contents, not identity (identity only for opaque leaf objects)"""
+    if isinstance(v, (str, bytes, int, float, bool, type(None))):
+        return v
+    if depth > 4:
+        return ("deep", type(v).__name__)
+    if isinstance(v, dict):
+        return ("dict", tuple((repr(k), deep_fingerprint(x, depth + 1)) for k, x in v.items()))
+    if isinstance(v, (list, tuple)):
+        return (type(v).__name__, tuple(deep_fingerprint(x, depth + 1) for x in v))
+    if isinstance(v, (set, frozenset)):
+        return ("set", tuple(sorted(repr(x) for x in v)))
+    if isinstance(v, type) or callable(v) or inspect.ismodule(v):
+        return ("ref", getattr(v, "__qualname__", getattr(v, "__name__", type(v).__name__)))
+    d = getattr(v, "__dict__", None)
+    if isinstance(d, dict) and type(v).__module__.startswith("joserfc"):
+        return ("inst", type(v).__name__, tuple((k, deep_fingerprint(x, depth + 1)) for k, x in d.items()))
+    return ("opaque", type(v).__name__, id(v))
+
+
+def deep_objects():
+    """vars() of every joserfc class (registries, message / model / key / algorithm classes), of every algorithm
+    instance and registry instance reachable from module globals, and every container global of joserfc.*"""
+    objs = {}
+    for mname, mod in sorted(sys.modules.items()):
+        if not (mname == "joserfc" or mname.startswith("joserfc.")) or mod is None:
+            continue
+        for gname, g in list(vars(mod).items()):
+            if gname.startswith("__"):
+                continue
+            if isinstance(g, type):
+                if g.__module__.startswith("joserfc"):
+                    objs["class %s.%s" % (g.__module__, g.__qualname__)] = g
+            elif isinstance(g, (dict, list, set)):
+                objs["global %s.%s" % (mname, gname)] = {"<value>": g}
+                for i, x in enumerate(g.values() if isinstance(g, dict) else g):
+                    if hasattr(x, "__dict__") and type(x).__module__.startswith("joserfc"):
+                        objs["instance %s.%s[%d] %s" % (mname, gname, i, getattr(x, "name", ""))] = x
+            elif hasattr(g, "__dict__") and type(g).__module__.startswith("joserfc") and not callable(g):
+                objs["instance %s.%s" % (mname, gname)] = g
+    return objs
+
+
+def deep_snapshot(objs):
+    snap = {}
+    for name, o in objs.items():
+        d = o if isinstance(o, dict) else vars(o)
+        snap[name] = {k: deep_fingerprint(v) for k, v in d.items()
+                      if not (k.startswith("__") and k.endswith("__")) and k not in ("_abc_impl", "_is_protocol")}
+    return snap
+
+
+REGS_JWE = [None, {"headers": ["custom"]}, {"headers": ["custom"], "strict": False}, {"headers": ["other"], "verify_all": False},
+            {"algorithms": ["A128GCMKW", "PBES2-HS256+A128KW", "ECDH-ES", "ECDH-ES+A128KW", "dir", "A128KW", "RSA-OAEP",
+                            "A128CBC-HS256", "A128GCM", "A256GCM", "C20P"]},
+            {"headers": ["custom"], "algorithms": ["A128GCMKW", "PBES2-HS256+A128KW", "ECDH-ES", "ECDH-ES+A128KW", "dir", "A128KW",
+                                                   "A128CBC-HS256", "A128GCM", "C20P"]},
+            {"strict": False, "verify_all": False}]
+REGS_JWS = [None, {"headers": ["custom"]}, {"headers": ["custom"], "strict": False}, {"algorithms": ["HS256", "HS384", "ES256", "EdDSA", "RS256", "PS256"]},
+            {"headers": ["other"], "algorithms": ["HS256", "ES256"]}]
+JWE_ALGS = [("A128GCMKW", "oct16_0"), ("PBES2-HS256+A128KW", "oct0"), ("ECDH-ES", "ec0pub"), ("ECDH-ES+A128KW", "ec0pub"),
+            ("dir", None), ("A128KW", "oct16_0"), ("RSA-OAEP", "rsapub")]
+JWE_ENCS = ["A128CBC-HS256", "A128GCM", "A256GCM", "C20P"]
+DIR_KEYS = {"A128CBC-HS256": ["oct0", "oct1"], "A128GCM": ["oct16_0", "oct16_1"], "A256GCM": ["oct0", "oct1"], "C20P": ["oct0", "oct1"]}
+JWS_ALGS = [("HS256", "oct0"), ("HS384", "oct1"), ("ES256", "ec0"), ("EdDSA", "okp"), ("RS256", "rsa"), ("PS256", "rsa")]
+
+
+def registry_histories(ctx, specs, pristine):
+    """ONE long history of JWE / JWS calls through several registry instances; deep snapshot of every shared
+    joserfc object around EVERY call; every verdict compared with the same call in the pristine process"""
+    rng = ctx.rng
+    objs = deep_objects()
+    before = deep_snapshot(objs)
+    pool = []          # (spec that opens it)
+    dist = {}
+    hist = []
+    n = ctx.scale(140, 1500)
+    # every alg family with more_header_registry first meets a registry WITHOUT the caller header, then one WITH it (and the
+    # other way round for the second half of the families): the systematic part; the rest is random
+    planned = []
+    for i, (alg, kname) in enumerate(JWE_ALGS):
+        enc = JWE_ENCS[i % len(JWE_ENCS)]
+        k = kname or DIR_KEYS[enc][0]
+        regs = [REGS_JWE[4], REGS_JWE[5]] if i % 2 == 0 else [REGS_JWE[5], REGS_JWE[4]]
+        for rg in regs:
+            planned.append({"op": "jwe_enc", "alg": alg, "enc": enc, "key": k, "pt": "planned", "reg": rg, "extra": {"custom": "v"}})
+    for step in range(n):
+        if planned:
+            spec = planned.pop(0)
+        else:
+            c = rng.randrange(10)
+            if c < 4 or not pool:
+                alg, kname = rng.choice(JWE_ALGS)
+                enc = rng.choice(JWE_ENCS)
+                if alg == "RSA-OAEP" and rng.random() < 0.7:
+                    alg, kname = "A128KW", "oct16_0"
+                spec = {"op": "jwe_enc", "alg": alg, "enc": enc, "key": kname or rng.choice(DIR_KEYS[enc]), "pt": "msg%d" % step,
+                        "reg": rng.choice(REGS_JWE), "extra": rng.choice([{}, {"custom": "v"}, {"custom": "v"}, {"other": "w"}])}
+            elif c == 4:
+                enc = rng.choice(JWE_ENCS)
+                spec = {"op": "jwe_enc_json", "alg": "A128KW", "key": "oct16_0", "alg2": "ECDH-ES+A128KW", "key2": "ec0pub", "enc": enc,
+                        "pt": "json%d" % step, "reg": rng.choice(REGS_JWE[3:]), "extra": rng.choice([{}, {"other": "w"}])}
+            elif c < 7:
+                alg, kname = rng.choice(JWS_ALGS)
+                if alg in ("RS256", "PS256") and rng.random() < 0.7:
+                    alg, kname = "HS256", "oct0"
+                spec = {"op": "jws_sign", "alg": alg, "key": kname, "pt": "pay%d" % step, "reg": rng.choice(REGS_JWS),
+                        "extra": rng.choice([{}, {"custom": "v"}, {"other": "w"}]), "b64": rng.choice([None, None, None, False, True])}
+            else:
+                spec = dict(rng.choice(pool))
+                kind = "jwe" if spec["op"].startswith("jwe") else "jws"
+                spec["reg"] = rng.choice(REGS_JWE if kind == "jwe" else REGS_JWS)
+                if rng.random() < 0.15:      # a valid token with the wrong key of the same kind
+                    spec["key"] = {"oct0": "oct1", "oct1": "oct0", "oct16_0": "oct16_1", "oct16_1": "oct16_0", "ec0": "ec1", "okp": "okp2",
+                                   "rsa": "rsa2"}.get(spec["key"], spec["key"])
+        out = exec_spec(spec, specs)
+        after = deep_snapshot(objs)
+        hist.append(spec)
+        ctx.note_case(("reg-history", step, json.dumps(spec, sort_keys=True)[:200]))
+        dist[spec["op"] + ":" + str(spec.get("alg", ""))] = dist.get(spec["op"] + ":" + str(spec.get("alg", "")), 0) + 1
+        d = diff_snapshot(before, after)
+        if d:
+            ctx.violation({"kind": "shared-object-written", "object": d[0][0].split(" ")[0] + " " + d[0][0].split(".")[-1].split("[")[0]},
+                          "the call %s changed shared state %r (call %d of the registry history)" % (json.dumps({k: v for k, v in spec.items() if k != "token"}), d[:3], step),
+                          {"kind": "reg-history", "calls": hist[-12:]})
+            before = after
+        fresh = pristine.call(spec)
+        if out["v"] != fresh["v"]:
+            ctx.violation({"kind": "verdict-depends-on-history", "op": spec["op"], "here": out["v"][1] if out["v"][0] == "err" else "ok",
+                           "first_in_process": fresh["v"][1] if fresh["v"][0] == "err" else "ok"},
+                          "call %s gives %r after %d earlier calls but %r as the first call of a process" % (
+                              json.dumps({k: v for k, v in spec.items() if k != "token"}), out["v"], step, fresh["v"]),
+                          {"kind": "reg-history", "calls": hist[-12:]})
+        if out["token"] is not None:
+            o = open_spec(spec, out["token"])
+            ok1 = pristine.call(o)["v"]
+            ok2 = exec_spec(o, specs)["v"]
+            if ok1 != ["ok", spec["pt"]] or ok2 != ["ok", spec["pt"]]:
+                ctx.violation({"kind": "token-invalid-after-history", "op": spec["op"]},
+                              "the token produced by %s (call %d) is opened as %r by a pristine process and as %r here" % (
+                                  json.dumps(spec), step, ok1, ok2), {"kind": "reg-history", "calls": hist[-12:]})
+            elif len(pool) < 60:
+                pool.append(o)
+    return dist, len(objs)
+
+
+class FileStops:
+    """every line of the given source files is a stop (label file:line)"""
+
+    class _Codes:
+        def __init__(self, files):
+            self.files = files
+
+        def __contains__(self, code):
+            return code.co_filename in self.files
+
+    class _Map:
+        def __init__(self, files):
+            self.files = files
+
+        def get(self, key):
+            short = self.files.get(key[0])
+            return None if short is None else "%s:%d" % (short, key[1])
+
+    def __init__(self, rels):
+        import joserfc
+        root = os.path.dirname(joserfc.__file__)
+        files = {os.path.join(root, r): r for r in rels}
+        self.map, self.codes, self.unknown = self._Map(files), self._Codes(files), []
+
+
+def core_policy(first, i, core_only):
+    """thread `first` runs until it has made i steps (counted among stops in the algorithm modules only when
+    core_only), then the other thread runs to completion, then `first` finishes: one preemption"""
+    st = {"n": i, "done": False}
+
+    def policy(pos, trace):
+        other = 1 - first
+        if not st["done"] and pos[first] is not None:
+            is_core = (pos[first].split(":")[0] in ALG_FILES_CORE) if core_only else True
+            if not is_core:
+                return first
+            if st["n"] > 0:
+                st["n"] -= 1
+                return first
+            st["done"] = True
+        if pos[other] is not None and (st["done"] or pos[first] is None):
+            return other
+        for t in (first, other):
+            if pos[t] is not None:
+                return t
+    return policy
+
+
+def multi_policy(rng, nsw, maxlen):
+    """random schedule with nsw preemptions"""
+    cuts = sorted(rng.randrange(0, maxlen + 1) for _ in range(nsw))
+    st = {"k": 0, "cur": rng.randrange(2), "steps": 0}
+
+    def policy(pos, trace):
+        if st["k"] < len(cuts) and st["steps"] >= cuts[st["k"]]:
+            st["k"] += 1
+            st["cur"] = 1 - st["cur"]
+        st["steps"] += 1
+        t = st["cur"]
+        if pos[t] is None:
+            t = 1 - t
+        return t
+    return policy
+
+
+def alg_pairs(ctx):
+    """pairs of operations that go through the SAME algorithm singleton with DIFFERENT keys / CEKs"""
+    P = []
+    full = not ctx.quick
+    for enc in ["A128CBC-HS256", "A128GCM", "C20P"] + (["A256GCM", "A256CBC-HS512"] if full else []):
+        k1, k2 = ("oct0", "oct1") if enc in ("A128CBC-HS256", "A256GCM", "C20P") else ("oct16_0", "oct16_1")
+        if enc == "A256CBC-HS512":
+            continue
+        algs = [("dir", k1, k2)] + ([("A128KW", "oct16_0", "oct16_1"), ("ECDH-ES", "ec0pub", "ec1pub")] if full or enc == "A128CBC-HS256" else [])
+        if not full and enc == "A128GCM":
+            algs.append(("A128KW", "oct16_0", "oct16_1"))
+        if not full and enc == "C20P":
+            algs.append(("ECDH-ES", "ec0pub", "ec1pub"))
+        for alg, a, b in algs:
+            e1 = {"op": "jwe_enc", "alg": alg, "enc": enc, "key": a, "pt": "first", "reg": {"algorithms": [alg, enc]}}
+            e2 = {"op": "jwe_enc", "alg": alg, "enc": enc, "key": b, "pt": "second", "reg": {"algorithms": [alg, enc]}}
+            P.append(("%s/%s" % (alg, enc), e1, e2))
+    for alg, a, b in [("HS256", "oct0", "oct1"), ("RS256", "rsa", "rsa2"), ("ES256", "ec0", "ec1"), ("EdDSA", "okp", "okp2")] + \
+                     ([("PS256", "rsa", "rsa2"), ("HS512", "oct0", "oct1")] if full else []):
+        s1 = {"op": "jws_sign", "alg": alg, "key": a, "pt": "first", "reg": {"algorithms": [alg]}}
+        s2 = {"op": "jws_sign", "alg": alg, "key": b, "pt": "second", "reg": {"algorithms": [alg]}}
+        P.append((alg, s1, s2))
+    return P
+
+
+def singleton_schedules(ctx, specs, pristine, only=None):
+    """producer||producer, producer||consumer, consumer||consumer for every pair, one preemption at every line of the
+    algorithm modules (quick: lines of the message / registry modules sampled; thorough: all, plus 2-3 preemptions);
+    afterwards the same operations once more sequentially (poisoned caches)"""
+    sched = Sched(FileStops(ALG_FILES_CORE + ALG_FILES_MORE), timeout=30.0)
+    objs = deep_objects()
+    base = deep_snapshot(objs)
+    stats = {}
+    nrun = 0
+    for name, p1, p2 in alg_pairs(ctx):
+        if only is not None and name != only:
+            continue
+        toks = []
+        for p in (p1, p2):
+            out = pristine.call(p)
+            if out["v"] != ["ok", "token"]:
+                raise RuntimeError("pair %s: producer fails in the pristine process: %r" % (name, out["v"]))
+            toks.append(out["token"])
+        c1, c2 = open_spec(p1, toks[0]), open_spec(p2, toks[1])
+        expect = {json.dumps(c1, sort_keys=True): ["ok", p1["pt"]], json.dumps(c2, sort_keys=True): ["ok", p2["pt"]]}
+        for kind, (a, b) in (("prod||prod", (p1, p2)), ("prod||cons", (p1, c2)), ("cons||cons", (c1, c2))):
+            pending = []
+
+            def thunks():
+                return [lambda: exec_spec(a, specs), lambda: exec_spec(b, specs)]
+
+            def judge(res, trace, what):
+                for i, (spec, r) in enumerate(zip((a, b), res)):
+                    if r[0] != "ok":
+                        v = ["err", exn_class(r[1])]
+                        out = {"v": v, "token": None}
+                    else:
+                        out = r[1]
+                    want = expect.get(json.dumps(spec, sort_keys=True), ["ok", "token"])
+                    bad = out["v"] != want
+                    how = "verdict %r instead of %r" % (out["v"], want)
+                    if not bad and out["token"] is not None:
+                        pending.append((open_spec(spec, out["token"]), spec, i, what, [t for t, _ in trace], [lab for t, lab in trace if t == i][-3:]))
+                    if bad:
+                        ctx.violation({"kind": "singleton-race" if what == "interleaved" else "singleton-poisoned", "pair": name.split("/")[-1], "phase": kind},
+                                      "%s: thread %d (%s %s with key %s) %s: %s (other thread: %s with key %s; last steps %r)" % (
+                                          name, i, spec["op"], spec.get("alg") or "", spec["key"], what, how, (a, b)[1 - i]["op"], (a, b)[1 - i]["key"],
+                                          [lab for t, lab in trace if t == i][-3:]),
+                                      {"kind": "alg-schedule", "pair": name, "phase": kind, "specs": [a, b], "schedule": [t for t, _ in trace]})
+            # the sequential run: step counts
+            res, trace = sched.run(thunks(), seg_policy([], False))
+            nrun += 1
+            judge(res, trace, "sequential")
+            cnt = [sum(1 for t, lab in trace if t == i) for i in (0, 1)]
+            core = [sum(1 for t, lab in trace if t == i and lab.split(":")[0] in ALG_FILES_CORE) for i in (0, 1)]
+            seen = set()
+            for first in (0, 1):
+                pts = [(i, True) for i in range(core[first] + 1)]
+                stride = 3 if ctx.quick else 1
+                off = ctx.rng.randrange(stride)
+                pts += [(i, False) for i in range(off, cnt[first] + 1, stride)]
+                for i, core_only in pts:
+                    res, trace = sched.run(thunks(), core_policy(first, i, core_only))
+                    nrun += 1
+                    key = tuple(t for t, _ in trace)
+                    if key in seen:
+                        continue
+                    seen.add(key)
+                    ctx.note_case(("alg", name, kind, key))
+                    judge(res, trace, "interleaved")
+            for _ in range(ctx.scale(0, 60)):
+                res, trace = sched.run(thunks(), multi_policy(ctx.rng, ctx.rng.choice([2, 3]), sum(cnt)))
+                nrun += 1
+                ctx.note_case(("alg", name, kind, tuple(t for t, _ in trace)))
+                judge(res, trace, "interleaved")
+            # poisoned caches: once more, sequentially, without the scheduler
+            for spec in (a, b, b, a):
+                out = exec_spec(spec, specs)
+                judge([("ok", out)] if spec is a else [("ok", {"v": expect.get(json.dumps(a, sort_keys=True), ["ok", "token"]), "token": None}), ("ok", out)],
+                      [], "after the concurrent phase, run sequentially again,")
+            # every token produced in this phase must be opened by a pristine process (one fork for all of them)
+            if pending:
+                rs = pristine.call({"op": "batch", "specs": [x[0] for x in pending]})["results"]
+                for (o, spec, i, what, schedule, last), v1 in zip(pending, rs):
+                    if v1 != ["ok", spec["pt"]]:
+                        ctx.violation({"kind": "singleton-race" if what == "interleaved" else "singleton-poisoned", "pair": name.split("/")[-1], "phase": kind},
+                                      "%s: the token produced by thread %d (%s %s with key %s) %s is opened as %r by a pristine process (other thread: %s with key %s; last steps %r)" % (
+                                          name, i, spec["op"], spec.get("alg") or "", spec["key"], what, v1, (a, b)[1 - i]["op"], (a, b)[1 - i]["key"], last),
+                                      {"kind": "alg-schedule", "pair": name, "phase": kind, "specs": [a, b], "schedule": schedule})
+            stats["%s %s" % (name, kind)] = len(seen)
+        after = deep_snapshot(objs)
+        d = diff_snapshot(base, after)
+        if d:
+            ctx.violation({"kind": "shared-object-written", "object": d[0][0].split(" ")[0] + " " + d[0][0].split(".")[-1].split("[")[0]},
+                          "after the operations of pair %s the shared state differs: %r" % (name, d[:3]), {"kind": "alg-pair", "pair": name})
+            base = after
+    return stats, nrun
+
 def run(ctx):
     ok, log = ctx.prove()
-    runner = Runner(ctx)
+    import pkgutil, importlib, joserfc
+    for m in pkgutil.walk_packages(joserfc.__path__, "joserfc."):
+        importlib.import_module(m.name)       # import time: every module registers its algorithms now
+    from joserfc.drafts.jwe_chacha20 import register_chaha20_poly1305
+    register_chaha20_poly1305()          # registration time: C20P / XC20P join the class tables before anything is snapshotted
+    mat = KeyMaterial(ctx.rng)
+    specs0 = key_specs(mat)
+    pristine = Pristine(lambda spec: exec_spec(spec, specs0))
+    try:
+        return _run(ctx, ok, log, mat, pristine)
+    finally:
+        pristine.close()
+
+
+def _run(ctx, ok, log, mat, pristine):
+    runner = Runner(ctx, mat)
     variant = os.environ.get("C20_VARIANT") or detect_variant(runner)
     ctx.notes.append("step lists compared with the code: %s variant of rfc7517/models.py" % variant)
     if runner.stops.unknown:
@@ -1069,6 +1603,16 @@ def run(ctx):
 
     # (1) sequential histories + frozen state
     dist, nobj = sequential_histories(runner, ctx, variant)
+    # (1b) JWE / JWS calls through several registry instances: deep snapshots + first-in-process verdicts
+    t1 = time.time()
+    rdist, nobj2 = registry_histories(ctx, runner.specs, pristine)
+    t_reg = time.time() - t1
+    # (2c) one preemption at every line of the algorithm modules, same singleton, different keys
+    t1 = time.time()
+    astats, anrun = singleton_schedules(ctx, runner.specs, pristine)
+    t_alg = time.time() - t1
+    ctx.coverage["registry_history"] = {"calls": rdist, "shared_objects_deep_compared": nobj2, "wall_s": round(t_reg, 1)}
+    ctx.coverage["singleton_schedules"] = {"distinct_per_pair_phase": astats, "executed": anrun, "wall_s": round(t_alg, 1)}
 
     # (3) stress
     if not ctx.quick:
@@ -1117,11 +1661,38 @@ def replay(path):
     print("replay:", {k: v for k, v in r.items() if k != "case"})
     ctx = lib.Ctx("C20", "quick", 0)
     ctx.known = []
-    runner = Runner(ctx)
-    O = runner.O
+    if r.get("kind") in ("alg-schedule", "reg-history", "alg-pair"):
+        import pkgutil, importlib, joserfc
+        for m in pkgutil.walk_packages(joserfc.__path__, "joserfc."):
+            importlib.import_module(m.name)
+        from joserfc.drafts.jwe_chacha20 import register_chaha20_poly1305
+        register_chaha20_poly1305()
+        mat = KeyMaterial(ctx.rng)
+        specs = key_specs(mat)
+        pristine = Pristine(lambda spec: exec_spec(spec, specs))
+        try:
+            if r["kind"] == "reg-history":
+                # keys are regenerated: only the producing calls of the recorded history can be re-run
+                for spec in [c for c in r["calls"] if "token" not in c]:
+                    here, first = exec_spec(spec, specs)["v"], pristine.call(spec)["v"]
+                    print(json.dumps(spec), "->", here, "| first in process:", first)
+                    if here != first:
+                        ctx.violations.append(({}, "verdict depends on history", {}))
+            else:
+                # a poisoned singleton depends on the schedules run before: re-run the whole enumeration of this pair
+                ctx.tier = json.load(open(path)).get("tier", "quick")
+                singleton_schedules(ctx, specs, pristine, only=r["pair"])
+                for sig, desc, _ in ctx.violations[:5]:
+                    print(desc[:400])
+        finally:
+            pristine.close()
+        print("STILL FAILS" if ctx.violations else "does not fail any more")
+        return 1 if ctx.violations else 0
     if r.get("kind") != "schedule" or not r.get("schedule"):
         print("no schedule in this replay file; see its description")
         return 1
+    runner = Runner(ctx)
+    O = runner.O
     names = r["ops"]
     allops = {}
     for wn, pops in pairs_quick(O) + jwe_pairs(O, runner.mat):
